@@ -29,9 +29,10 @@ def generate(seed, tier):
 
 
 class H(Hooks):
-    def __init__(self):
+    def __init__(self, ops=()):
         self.prev_now = None
         self.prev_completed = None
+        self.ops = ops
 
     def observe(self, w):
         now = w.call_query("current_time")
@@ -40,6 +41,11 @@ class H(Hooks):
 
     def after(self, w, i, kind, info):
         ctx, m = w.ctx, w.model
+        if kind == "dispatch" and i + 1 < len(self.ops) and self.ops[i + 1][0] == "query":
+            # let the user's query burst be the first thing asked in the new state; the clock is read after it
+            # (monotonicity between the observed states still has to hold: <= is transitive)
+            ctx.probe("clock_read_after_other_queries")
+            return
         now, comp = self.observe(w)
         if kind == "reset":
             self.prev_now, self.prev_completed = now, comp
@@ -62,7 +68,7 @@ class H(Hooks):
 
 def execute(case, ctx):
     w = DWorld(case["cfg"], ctx)
-    h = H()
+    h = H(case["ops"])
     h.prev_now, h.prev_completed = h.observe(w)
     run_ops(w, case["ops"], h)
 
